@@ -585,6 +585,12 @@ func (g *Gen) trBin(x EBin, env *Env) Val {
 				o = r
 			}
 			t = fmt.Sprintf("(= (s-arr %s) 0)", o.T)
+		} else if at, ok := l.Ty.Underlying().(*types.Array); ok && at.Len() <= 16 {
+			var cs []string
+			for k := int64(0); k < at.Len(); k++ {
+				cs = append(cs, fmt.Sprintf("(= (select %s %d) (select %s %d))", l.T, k, r.T, k))
+			}
+			t = and(cs...)
 		} else if isNumeral(l.T) && isNumeral(r.T) {
 			if l.T == r.T {
 				t = "true"
@@ -616,6 +622,19 @@ func (g *Gen) trBin(x EBin, env *Env) Val {
 	return Val{}
 }
 
+func (g *Gen) runeStrDecl() {
+	g.declareFun("runeStr", []string{"Int"}, "Str")
+	g.axiomOnce("runeStr", "(forall ((r Int)) (! (=> (and (<= 0 r) (< r 128)) (and (= (slen (runeStr r)) 1) (= (sat (runeStr r) 0) r))) :pattern ((runeStr r))))")
+	g.axiomOnce("runeStr2", "(forall ((r Int)) (! (and (<= 1 (slen (runeStr r))) (<= (slen (runeStr r)) 4)) :pattern ((runeStr r))))")
+	g.classClosure()
+}
+
+func (g *Gen) fmtIntDecl() {
+	g.declareFun("fmtInt", []string{"Int"}, "Str")
+	g.axiomOnce("fmtInt", "(forall ((x Int)) (! (>= (slen (fmtInt x)) 1) :pattern ((fmtInt x))))")
+	g.classClosure()
+}
+
 // string helper functions with triggered axioms (declared on first use)
 func (g *Gen) substr(s, lo, hi string) string {
 	if !g.declared["substr"] {
@@ -623,6 +642,7 @@ func (g *Gen) substr(s, lo, hi string) string {
 		g.assume("(forall ((s Str) (i Int) (j Int)) (! (=> (and (<= 0 i) (<= i j) (<= j (slen s))) (= (slen (substr s i j)) (- j i))) :pattern ((substr s i j))))")
 		g.assume("(forall ((s Str) (i Int) (j Int) (k Int)) (! (=> (and (<= 0 i) (<= i j) (<= j (slen s)) (<= 0 k) (< k (- j i))) (= (sat (substr s i j) k) (sat s (+ i k)))) :pattern ((sat (substr s i j) k))))")
 		g.assume("(forall ((s Str)) (! (= (substr s 0 (slen s)) s) :pattern ((substr s 0 (slen s)))))")
+		g.classClosure()
 	}
 	return fmt.Sprintf("(substr %s %s %s)", s, lo, hi)
 }
@@ -632,6 +652,7 @@ func (g *Gen) sconcat(a, b string) string {
 		g.declareFun("sconcat", []string{"Str", "Str"}, "Str")
 		g.assume("(forall ((a Str) (b Str)) (! (= (slen (sconcat a b)) (+ (slen a) (slen b))) :pattern ((sconcat a b))))")
 		g.assume("(forall ((a Str) (b Str) (k Int)) (! (= (sat (sconcat a b) k) (ite (< k (slen a)) (sat a k) (sat b (- k (slen a))))) :pattern ((sat (sconcat a b) k))))")
+		g.classClosure()
 	}
 	if a == "str!empty" {
 		return b
@@ -769,6 +790,14 @@ func (g *Gen) trCall(x ECall, env *Env) Val {
 			ref = "(s-arr " + v.T + ")"
 		}
 		return Val{T: fmt.Sprintf("(select %s %s)", g.arr(h, "alloc", "Bool"), ref), Ty: tyBool}
+	case "runestr":
+		v := arg(0)
+		g.runeStrDecl()
+		return Val{T: "(runeStr " + v.T + ")", Ty: tyStr}
+	case "fmtint":
+		v := arg(0)
+		g.fmtIntDecl()
+		return Val{T: "(fmtInt " + v.T + ")", Ty: tyStr}
 	case "resultof":
 		// resultof("callee", k, j): j-th result of the k-th call of callee in this function (1-based)
 		ks, ok := x.Args[0].(EStr)
@@ -816,6 +845,13 @@ func (g *Gen) trCall(x ECall, env *Env) Val {
 			return Val{T: fmt.Sprintf("(select (select %s %s) %s)", g.arr(env.heap, "G!iter!visited!"+sortTag(ks), "(Array "+ks+" Bool)"), v.T, k.T), Ty: tyBool}
 		}
 		trFail("itvisited used outside a range loop")
+	}
+	if sc, ok := g.W.db.Classes[x.Fn]; ok {
+		v := arg(0)
+		if sortOf(v.Ty) != "Str" {
+			trFail("%s applied to %s", x.Fn, v.Ty)
+		}
+		return Val{T: fmt.Sprintf("(%s %s)", g.declareClass(sc), v.T), Ty: tyBool}
 	}
 	sf, ok := g.W.db.Funcs[x.Fn]
 	if !ok {
